@@ -7,7 +7,7 @@ CONSTANTS
   MaxCalls = 11
   MaxTests = 2
   MaxRuns = 2
-  MaxTagOps = 3
+  MaxTagOps = 2
   MaxTimes = 0
   AllowStop = FALSE
   AllowSetFF = FALSE
